@@ -215,7 +215,12 @@ class TagSelection(Selection):
               except IndexError:
                 yield tagging.NO_VALUE
             else:
-              yield getattr(value, name, tagging.NO_VALUE)
+              try:
+                yield getattr(value, name, tagging.NO_VALUE)
+              except ValueError:
+                # An unset dataclass field with a default_factory: it has no
+                # default value to report.
+                yield tagging.NO_VALUE
 
   def replace(self, value: Any, deepcopy: bool = True) -> None:
 
